@@ -3,7 +3,7 @@
    parent height + 1, conflicts = number of stored headers of that height as guardBlockProcessing assigns it),
    from NewRepository on an empty database, with an arbitrary choice of which added blocks become best. *)
 From Coq Require Import List NArith Bool Lia.
-From Verif Require Import Chain.Model Chain.Proofs Chain.ProofsWalk Chain.ProofsSys Chain.ProofsTx Chain.Examples.
+From Verif Require Import Chain.Model Chain.Proofs Chain.ProofsWalk Chain.ProofsSys Chain.ProofsTx Chain.ProofsHeads Chain.Examples.
 Import ListNotations.
 Open Scope N_scope.
 
@@ -48,6 +48,10 @@ Section C14.
     intros R. exact (get_tx_meta_spec g gp r (reachable_wf _ _ _ _ _ Hg R)
                        (reachable_wf_txi _ _ _ _ _ Hg R) (reachable_conf_inj _ _ _ _ _ Hg R) Hgp h x).
   Qed.
+  (* 3b. the heads store holds exactly the branch tips; ScanHeads(from) lists the tips at heights >= from *)
+  Theorem heads_are_tips r from h : reachable g gp tag adm r ->
+    (In h (scan_heads r from) <-> is_tip r h /\ from <= num_of h).
+  Proof. intros R. exact (scan_heads_spec r from h (reachable_heads_ok _ _ _ _ _ Hg Hgp R)). Qed.
 End C14.
 
 (* 4. subscribers.  A subscriber starts at any known block holding the path to it; AddBlock calls (obeying the
@@ -104,5 +108,6 @@ Print Assumptions index_total.
 Print Assumptions has_block_is_membership.
 Print Assumptions exclude_is_difference.
 Print Assumptions lookup_on_chain.
+Print Assumptions heads_are_tips.
 Print Assumptions reader_converges.
 Print Assumptions reader_reaches_best.
